@@ -19,6 +19,7 @@ RULE = ('(a) every sequence of 1..3 (quick) / 1..4 (thorough) binary operators o
         'BareScriptParserError. Non-trivial: chains mixing >= 2 precedence levels; trees of depth >= 3 containing a group or unary; token '
         'strings of >= 3 tokens. Distinct by expression text.')
 RULE += ' Also: bracketed names containing `\\\\]` followed by parentheses / quotes, number literals beyond the double range, control characters in string literals, non-ASCII identifiers and call names.'
+RULE += ' Round 7: number literals written with an explicit plus sign (+5, +0.5, +1e+3) in operand position.'
 ASSUMPTIONS = [
     'generated text avoids sign-prefixed number tokens (+5), white space at the edges inside [brackets] and string literals whose last '
     'character is an unescaped backslash (tokenisation of those is not fixed by the property)',
